@@ -710,6 +710,43 @@ def gen_parse_case(r, dup=True):
     return {"kind": "parse", "cfg": cfg, "name": name, "attrs": al, "markup": markup_for(name, al)}
 
 
+def gen_malformed_case(r):
+    """start tags in untidy syntax: mixed-case names (the tokenizer lower-cases them, which can create duplicates),
+    single-quoted / unquoted / valueless attributes, character references standing for whitespace, missing blanks,
+    self-closing slash. The model and the oracle start from whatever list the tokenizer delivers."""
+    t, tags, attrs = table_names()
+    name = r.choice(tags + ["p", "div", "br", "input", "x-y"])
+    if r.random() < 0.4:
+        name = r.choice([name.upper(), name.title()])
+    apool = attrs + ["id", "href", "title", "data-x"]
+    out = "<" + name
+    n = r.randint(1, 5)
+    prev = None
+    for i in range(n):
+        k = prev if (prev and r.random() < 0.35) else r.choice(apool)
+        prev = k
+        if r.random() < 0.35:
+            k = r.choice([k.upper(), k.title()])
+        style = r.choice(["dq", "dq", "sq", "bare", "none", "entity", "empty"])
+        v = gen_ws_string(r, exotic=r.random() < 0.5)
+        if style == "dq":
+            a = f'{k}="{v}"'
+        elif style == "sq":
+            a = f"{k}='{v}'"
+        elif style == "bare":
+            a = f"{k}=" + (v.split() or ["v"])[0]
+        elif style == "none":
+            a = k
+        elif style == "empty":
+            a = f'{k}=""'
+        else:
+            ent = r.choice(["&#32;", "&nbsp;", "&#x9;", "&#10;", "&#160;", "&#x200b;", "&ensp;", "&amp;"])
+            a = f'{k}="' + ent.join(v.split() or ["a", "b"]) + '"'
+        out += r.choice([" ", " ", " ", "\n", "\t ", "" if (i and style in ("dq", "sq")) else " ", " / "]) + a
+    out += r.choice([">", ">", " >", "/>", " />"])
+    return {"kind": "parse", "cfg": gen_cfg(r), "name": name.lower(), "attrs": [], "markup": out}
+
+
 def gen_tag_case(r):
     t, tags, attrs = table_names()
     mode = r.choice(["nb", "nb", "copy", "b", "b"])
@@ -776,18 +813,25 @@ def check_cases(ctx: Ctx, stream: str, cases: list):
             o, e = execute(c)
         except Exception as ex:      # an exception the property does not provide for is an observation, not a harness error
             o, e = f"raised {type(ex).__name__}: {str(ex)[:80]}", []
+            if c["kind"] == "parse" and _spy_log:
+                c["_seen"] = _spy_log[0]
         obs.append(o)
         exts.append(e)
     # the model starts from what the tokenizer delivered
-    for c in cases:
+    kept = []
+    for c, o, e in zip(cases, obs, exts):
         c.pop("_human", None)
         if c["kind"] == "parse":
             seen = c.pop("_seen", None)
-            if seen is not None:
-                sname, sattrs = seen[0], [[k, v] for k, v in seen[1]]
-                if sname != c["name"] or sattrs != [list(a) for a in c["attrs"]]:
-                    ctx.count(f"{stream}:tokenizer-delivered-other-list")
-                    c["name"], c["attrs"] = sname, sattrs
+            if seen is None:
+                ctx.count(f"{stream}:no-start-tag-delivered")      # nothing for the property to speak about
+                continue
+            sname, sattrs = seen[0], [[k, v] for k, v in seen[1]]
+            if sname != c["name"] or sattrs != [list(a) for a in c["attrs"]]:
+                ctx.count(f"{stream}:tokenizer-delivered-other-list")
+                c["name"], c["attrs"] = sname, sattrs
+        kept.append((c, o, e))
+    cases, obs, exts = [k[0] for k in kept], [k[1] for k in kept], [k[2] for k in kept]
     lines = [model_line(c) for c in cases]
     replies = Driver().ask(lines)
     for c, o, ex, line, rep in zip(cases, obs, exts, lines, replies):
@@ -821,6 +865,13 @@ def run(ctx: Ctx):
         "dictionary keys are compared by their str value (NamespacedAttribute is a str subclass); which key object is retained is not observed",
     ]
     t, tags, attrs = table_names()
+
+    # ---- 0. corpus of minimised past disagreements -----------------------------------------------------------------
+    from .common import CORPUS
+    cdir = CORPUS / "C17"
+    if cdir.is_dir():
+        cc = [json.load(open(f))["case"] for f in sorted(cdir.glob("*.json"))]
+        check_cases(ctx, "corpus", cc)
 
     # ---- 1. split: exhaustive single separators, then generated patterns ------------------------------------------
     lim = 0x110000 if ctx.thorough else 0x3200
@@ -960,6 +1011,13 @@ def run(ctx: Ctx):
         ctx.count("parse:mva=" + ("default" if c["cfg"]["mva"] == "default" else "none" if c["cfg"]["mva"] is None else "custom"))
         ctx.count("parse:dcls=" + c["cfg"].get("dcls", "absent"))
     check_cases(ctx, "parse", cases)
+    r = ctx.rng("parse-malformed")
+    cases = [gen_malformed_case(r) for _ in range(ctx.n(8000, 40000))]
+    check_cases(ctx, "parse-malformed", cases)
+    for c in cases:
+        ks = [k for k, _ in c["attrs"]]
+        ctx.count("parse-malformed:dup" if len(set(ks)) < len(ks) else "parse-malformed:nodup")
+        ctx.count("parse-malformed:valueless" if any(v is None for _, v in c["attrs"]) else "parse-malformed:all-valued")
 
     # ---- 6. str.lower table: the model's per-code-point lower against the runtime ------------------------------------
     pts = [c for c in range(sys.maxunicode + 1) if not (0xD800 <= c <= 0xDFFF) and chr(c).lower() != chr(c)]
